@@ -29,6 +29,8 @@ func init() {
 			ruleRemoveAllDropsEverything(c, "R7")
 			ruleExhaustiveWalks(c, "R8", []*ssa.Function{c.A.TreeClean}, "a cleaned route is no longer reported: Clean visits every child")
 			ruleCleanTestsEveryChild(c, "R8b")
+			ruleInterceptorShorthands(c, "R9")
+			ruleRequestPathIsMatched(c, "R10")
 		},
 	})
 }
